@@ -425,11 +425,16 @@ class ErrorRanges:
         self._lengths = self._compute_lengths()
 
     def _compute_lengths(self) -> List[int]:
-        lengths = [
-            int(errors / self.error_rate) - 1
-            for errors in range(1, int(self.error_rate * self.length) + 1)
-        ]
-        if not lengths or lengths[-1] < self.length:
+        # lengths[e] is the highest length at which int(error_rate * length) == e.
+        # (Computing it as int(e / error_rate) - 1 is off by one whenever
+        # 1 / error_rate is not an integer.)
+        lengths: List[int] = []
+        for length in range(1, self.length + 1):
+            errors = int(self.error_rate * length)
+            while len(lengths) <= errors:
+                lengths.append(length)
+            lengths[errors] = length
+        if not lengths:
             lengths.append(self.length)
         return lengths
 
